@@ -1285,6 +1285,7 @@ struct ConvInfo {
     explicit: bool,
     /// B^precision >= 2^128 (UBig::log2_bounds switches to its widened large-number estimate)
     big_limit: bool,
+    b: u64,
 }
 
 const THRESHOLD_SMALL_EXP: i64 = 38; // (Word::BITS as f32 * 0.60206) as isize for 64-bit words
@@ -1306,6 +1307,10 @@ fn judge_conv<R2: Round, const NB: Word>(out: &mut Out, ctx: &Ctx, what: &str, s
                         format!("{what} of {} (precision {}, limited): the target precision computes to 0 and the call panics: {}", src.show(), info.src_precision, normalise_msg(&m))
                     });
                 }
+            } else if info.rel == Rel::Unrelated && (-THRESHOLD_SMALL_EXP..0).contains(&info.src_exp) && m.contains("lhs.digits() <= self.precision + rhs.digits()") {
+                ctx.known_or_fail(out, "C08/convert-base-small-neg-exponent-long-significand", || {
+                    format!("{what} of {} (source precision {}, target precision {target}): {}", src.show(), info.src_precision, normalise_msg(&m))
+                });
             } else {
                 out.fail(format!("{what} of {} (precision {}) panicked: {}", src.show(), info.src_precision, normalise_msg(&m)));
             }
@@ -1352,7 +1357,11 @@ fn judge_conv<R2: Round, const NB: Word>(out: &mut Out, ctx: &Ctx, what: &str, s
                     ctx.known_or_fail(out, "C08/convert-base-to-root-base-not-rounded", || {
                         format!("{what} of {} (target precision {target}): returned Exact with {} digits", src.show(), digits(&res.sig, nb))
                     });
-                } else if info.rel == Rel::Unrelated && large && err_class(&truth_sci, &res.val, target) <= LARGE_EXP_KNOWN_ULPS {
+                } else if info.rel == Rel::Unrelated && large && std::env::var("C08_STATS").is_ok() {
+                    let ec = err_class(&truth_sci, &res.val, target);
+                    let bits = (target as f64 * (nb as f64).log2()) as u64;
+                    eprintln!("STAT bits={} pclass={} err={} clauses={} srcexp={} allowed={:?} b={} nb={}", bits, target, ec, broken.iter().map(|b| b.clause).collect::<Vec<_>>().join("+"), info.src_exp, large_exp_allowed(info.src_exp, info.b, nb, target), info.b, nb);
+                } else if info.rel == Rel::Unrelated && large && large_exp_allowed(info.src_exp, info.b, nb, target).map_or(true, |k| err_class(&truth_sci, &res.val, target) <= k) {
                     ctx.known_or_fail(out, "C08/convert-base-large-exponent-unfaithful", || {
                         let all: Vec<&str> = broken.iter().map(|b| b.clause).collect();
                         format!(
@@ -1374,8 +1383,21 @@ fn judge_conv<R2: Round, const NB: Word>(out: &mut Out, ctx: &Ctx, what: &str, s
     }
 }
 
-/// errors of the ln/exp path below this many ulps are the known finding; anything larger is reported
-const LARGE_EXP_KNOWN_ULPS: u64 = 2;
+/// Error model of the ln/exp branch of convert_base (known finding): the new exponent e·ln(B)/ln(NewB)
+/// is computed with 2p digits in total, so its fractional part carries an error of about
+/// |e|·log(B)·NewB^(1−2p), i.e. |e|·log(B)·NewB^(1−p) ulps of the result, on top of the 1-2 ulps
+/// of the directed-mode ln/exp themselves. Returns the power of two below which an error (in
+/// ulps of the target precision) belongs to the finding; None when the model error reaches the
+/// size of the whole significand (the result is then arbitrary).  Larger errors are reported.
+fn large_exp_allowed(src_exp: i64, b: u64, nb: u64, p: u64) -> Option<u64> {
+    let a = BigUint::from(src_exp.unsigned_abs() * (64 - b.leading_zeros() as u64) * nb);
+    let np = bpow(nb, p);
+    let bound: BigUint = BigUint::from(2u8) + (&a + &np - BigUint::one()) / &np;
+    if bound >= bpow(nb, p.saturating_sub(1)).max(BigUint::from(2u8) * BigUint::from(nb)) {
+        return None;
+    }
+    Some(bound.to_u64().unwrap().next_power_of_two())
+}
 
 #[allow(non_upper_case_globals)]
 fn change_base<R: ModeTag, const B: Word, const NB: Word>(c: &ConvCase, ctx: &Ctx) -> Out {
@@ -1410,7 +1432,7 @@ fn change_base<R: ModeTag, const B: Word, const NB: Word>(c: &ConvCase, ctx: &Ct
     if doc == 0 {
         out.label("with_base: target precision computes to 0 (unlimited)");
     }
-    let mut info = ConvInfo { rel, src_exp, src_precision: c.p, explicit: false, big_limit: bpow(b, c.p as u64).bits() > 128 };
+    let mut info = ConvInfo { rel, src_exp, src_precision: c.p, explicit: false, big_limit: bpow(b, c.p as u64).bits() > 128, b };
     judge_conv(&mut out, ctx, &format!("with_base::<{nb}> (from base {b})"), &sci, catch(|| src.clone().with_base::<NB>()), doc, R::MODE, &info);
     if nb == 10 {
         judge_conv(&mut out, ctx, &format!("to_decimal (from base {b})"), &sci, catch(|| src.to_decimal()), doc_target_precision(b, 10, c.p as u64), Mode::HalfAway, &info);
